@@ -290,6 +290,7 @@ impl<M: Manager, W: From<Object<M>>> Pool<M, W> {
                 slots: Mutex::new(Slots {
                     vec: VecDeque::with_capacity(builder.config.max_size),
                     size: 0,
+                    creating: 0,
                     max_size: builder.config.max_size,
                 }),
                 users: AtomicUsize::new(0),
@@ -337,39 +338,56 @@ impl<M: Manager, W: From<Object<M>>> Pool<M, W> {
             None => false,
         };
 
-        let permit = if non_blocking {
-            self.inner.semaphore.try_acquire().map_err(|e| match e {
-                TryAcquireError::Closed => PoolError::Closed,
-                TryAcquireError::NoPermits => PoolError::Timeout(TimeoutType::Wait),
-            })?
-        } else {
-            apply_timeout(
-                self.inner.runtime,
-                TimeoutType::Wait,
-                timeouts.wait,
-                async {
-                    self.inner
-                        .semaphore
-                        .acquire()
-                        .await
-                        .map_err(|_| PoolError::Closed)
-                },
-            )
-            .await?
-        };
-
-        let inner_obj = loop {
-            let inner_obj = match self.inner.config.queue_mode {
-                QueueMode::Fifo => self.inner.slots.lock().unwrap().vec.pop_front(),
-                QueueMode::Lifo => self.inner.slots.lock().unwrap().vec.pop_back(),
-            };
-            let inner_obj = if let Some(inner_obj) = inner_obj {
-                self.try_recycle(timeouts, inner_obj).await?
+        let (permit, inner_obj) = 'acquire: loop {
+            let permit = if non_blocking {
+                self.inner.semaphore.try_acquire().map_err(|e| match e {
+                    TryAcquireError::Closed => PoolError::Closed,
+                    TryAcquireError::NoPermits => PoolError::Timeout(TimeoutType::Wait),
+                })?
             } else {
-                self.try_create(timeouts).await?
+                apply_timeout(
+                    self.inner.runtime,
+                    TimeoutType::Wait,
+                    timeouts.wait,
+                    async {
+                        self.inner
+                            .semaphore
+                            .acquire()
+                            .await
+                            .map_err(|_| PoolError::Closed)
+                    },
+                )
+                .await?
             };
-            if let Some(inner_obj) = inner_obj {
-                break inner_obj;
+
+            loop {
+                // Whether this call may use an idle object or create a new
+                // one is decided while holding the lock: a permit can be
+                // a leftover of a larger `max_size` (see `resize`).
+                let inner_obj = {
+                    let mut slots = self.inner.slots.lock().unwrap();
+                    let inner_obj = match self.inner.config.queue_mode {
+                        QueueMode::Fifo => slots.vec.pop_front(),
+                        QueueMode::Lifo => slots.vec.pop_back(),
+                    };
+                    if inner_obj.is_none() {
+                        if slots.size + slots.creating >= slots.max_size {
+                            drop(slots);
+                            permit.forget();
+                            continue 'acquire;
+                        }
+                        slots.creating += 1;
+                    }
+                    inner_obj
+                };
+                let inner_obj = if let Some(inner_obj) = inner_obj {
+                    self.try_recycle(timeouts, inner_obj).await?
+                } else {
+                    self.try_create(timeouts).await?
+                };
+                if let Some(inner_obj) = inner_obj {
+                    break 'acquire (permit, inner_obj);
+                }
             }
         };
 
@@ -433,21 +451,31 @@ impl<M: Manager, W: From<Object<M>>> Pool<M, W> {
         &self,
         timeouts: &Timeouts,
     ) -> Result<Option<ObjectInner<M>>, PoolError<M::Error>> {
+        // The caller has reserved a slot for the new object. Give it back
+        // if the creation fails or is cancelled.
+        let reservation = DropGuard(|| {
+            self.inner.slots.lock().unwrap().creating -= 1;
+        });
+        let obj = apply_timeout(
+            self.inner.runtime,
+            TimeoutType::Create,
+            timeouts.create,
+            self.inner.manager.create(),
+        )
+        .await?;
+        reservation.disarm();
+        {
+            let mut slots = self.inner.slots.lock().unwrap();
+            slots.creating -= 1;
+            slots.size += 1;
+        }
         let mut unready_obj = UnreadyObject {
             inner: Some(ObjectInner {
-                obj: apply_timeout(
-                    self.inner.runtime,
-                    TimeoutType::Create,
-                    timeouts.create,
-                    self.inner.manager.create(),
-                )
-                .await?,
+                obj,
                 metrics: Metrics::default(),
             }),
             pool: &self.inner,
         };
-
-        self.inner.slots.lock().unwrap().size += 1;
 
         // Apply post_create hooks
         if let Err(e) = self
@@ -479,15 +507,23 @@ impl<M: Manager, W: From<Object<M>>> Pool<M, W> {
         slots.max_size = max_size;
         // shrink pool
         if max_size < old_max_size {
-            while slots.size > slots.max_size {
-                if let Ok(permit) = self.inner.semaphore.try_acquire() {
-                    permit.forget();
-                    if let Some(mut inner) = slots.vec.pop_front() {
+            // Retire the permits of the removed capacity as far as they
+            // are free. The ones which are in use turn stale: `timeout_get`
+            // discards them and objects returned in excess of `max_size`
+            // don't add theirs back.
+            for _ in max_size..old_max_size {
+                match self.inner.semaphore.try_acquire() {
+                    Ok(permit) => permit.forget(),
+                    Err(_) => break,
+                }
+            }
+            while slots.size + slots.creating > slots.max_size {
+                match slots.vec.pop_front() {
+                    Some(mut inner) => {
                         slots.size -= 1;
                         self.inner.manager.detach(&mut inner.obj);
                     }
-                } else {
-                    break;
+                    None => break,
                 }
             }
             // Create a new VecDeque with a smaller capacity
@@ -625,6 +661,9 @@ struct PoolInner<M: Manager> {
 struct Slots<T> {
     vec: VecDeque<T>,
     size: usize,
+    /// Number of slots reserved by `get` calls for objects which are
+    /// currently being created.
+    creating: usize,
     max_size: usize,
 }
 
